@@ -284,6 +284,21 @@ func rulesC10(w *World, o *Out) {
 					}
 				}
 			}
+			// registration does not normalise the chain type ("EVM", "evm"): the match folds case
+			okFold := false
+			for _, f := range FactsAt(st) {
+				if f.Kind == FCmp && f.Op == token.EQL {
+					for _, v := range []ssa.Value{f.X, f.Y} {
+						if fl.DependsOnCall(v, func(c Callee) bool { return c.Pkg == "strings" && (c.Name == "ToLower" || c.Name == "ToUpper") }) != nil {
+							okFold = true
+						}
+					}
+				}
+				if f.Kind == FTrue && fl.DependsOnCall(f.V, func(c Callee) bool { return c.Pkg == "strings" && c.Name == "EqualFold" }) != nil {
+					okFold = true
+				}
+			}
+			o.Check("C10.R4", "transformSnapshotToCompass|the chain type is matched without regard to case", okFold, pos, "accounts are registered with a free-form chain type; an exact comparison with \"evm\" drops validators registered as \"EVM\" from every valset while they stay in the snapshot total")
 			o.Check("C10.R4", "transformSnapshotToCompass|validator listed only with an account on this chain", okT && okR, pos, "the append must be dominated by chain type and chain reference id equality")
 			// ... and with nothing else deciding: every snapshot validator with such an account is listed, whatever
 			// its share or computed power (loop bounds and nil checks aside)
@@ -492,6 +507,8 @@ func rulesC12(w *World, o *Out) {
 	o.Rule("C12.R1", "store bookkeeping over validator addresses is injective: no Join/Split with a non-empty separator over raw address bytes")
 	o.Rule("C12.R2", "the inactivity sweep jails a validator only when it is not alive, not in its grace period and not already jailed; 'alive' is height < alive-until; a jailing failure never ends the sweep")
 	o.Rule("C12.R3", "an accepted keep-alive always (re)writes the record with alive-until = height + TTL; acceptance requires the version gate, which refuses versions below the stored minimum; both writers of the minimum refuse to lower it")
+	o.Rule("C12.R5", "which minimum version, keep-alive record and grace period decide is read from the committed store only (no in-memory state beside the store in x/valset)")
+	memStateRule(w, o, "C12.R5", "the version gate, keep-alive records and grace periods", "x/valset")
 	o.Rule("C12.R4", "EndBlock runs the grace-period update every block and the sweep on its period; the sentence table is strictly increasing; Jail calls the slashing keeper only past the last-validator and 25 % guards")
 
 	// ---- R1 ----
@@ -1093,6 +1110,45 @@ func rulesC13(w *World, o *Out) {
 		}
 	}
 	o.Count("C13.R1 BytesToSign assignments in the bridge keeper", nBts, 1)
+	// every stored evidence entry counts as "supplied": the lookup of suppliers is not filled under a condition on
+	// the entry's content
+	if jm := w.MustFunc(o, "x/consensus/keeper", "Keeper", "jailValidatorsWhichMissedAttestation"); jm != nil {
+		nLk := 0
+		for _, g := range unitFuncs(jm) {
+			for _, b := range g.Blocks {
+				for _, in := range b.Instrs {
+					mu, isMU := in.(*ssa.MapUpdate)
+					if !isMU {
+						continue
+					}
+					if fl.DependsOnCall(mu.Key, func(c Callee) bool { return c.Name == "GetValAddress" || c.Name == "String" }) == nil {
+						if nm, _ := loadedField(mu.Key); nm != "ValAddress" {
+							continue
+						}
+					}
+					nLk++
+					var cond []string
+					for _, f := range FactsAt(mu) {
+						for _, v := range []ssa.Value{f.V, f.X, f.Y} {
+							if v == nil {
+								continue
+							}
+							if nm, _ := loadedField(v); nm == "Proof" {
+								cond = append(cond, "Proof")
+							}
+							for _, cb := range callsBehind(v) {
+								if cal, okc := CalleeOf(cb.Common()); okc && cal.Name == "GetProof" {
+									cond = append(cond, "GetProof()")
+								}
+							}
+						}
+					}
+					o.Check("C13.R3", "jailValidatorsWhichMissedAttestation|every stored evidence entry counts as supplied", len(cond) == 0, w.Pos(mu.Pos()), "the supplier lookup is filled under a condition on "+strings.Join(cond, ",")+": a validator whose evidence was accepted and stored is then jailed for not having supplied any")
+				}
+			}
+		}
+		o.Count("C13.R3 supplier lookup writes", nLk, 1)
+	}
 	// evidence that was acknowledged is evidence that is stored: prune-time jailing looks at the stored entries
 	if ae := w.MustFunc(o, "x/consensus/keeper", "msgServer", "AddEvidence"); ae != nil {
 		o.Analysed(w.FuncKey(ae))
